@@ -44,7 +44,8 @@ def relB (c : CW) (s : WS) : Bool :=
   (List.range c.issued.length).all (fun o =>
     (s.marked.contains o && (s.alive o).isSome) ==
     c.w.marked.any (fun h => c.w.isValid h && ordOf c.issued h == some o)) &&
-  s.marked.all (fun o => decide (o < s.ents.length)) && decide s.marked.Nodup
+  s.marked.all (fun o => decide (o < s.ents.length)) && decide s.marked.Nodup &&
+  s.marked.all (fun o => (c.issued[o]?).all (fun h => !(createHandles c.w.buffers).contains h))
 
 theorem lookupS_none_of_not_mem {l : List (Nat × Nat)} {sid : Nat} (h : sid ∉ l.map (·.1)) : lookupS l sid = none := by
   unfold lookupS
@@ -105,7 +106,7 @@ theorem all2B_sound {α β : Type} {r : α → β → Bool} {R : α → β → P
 theorem relB_sound {c : CW} {s : WS} (h : relB c s = true) : Rel c s := by
   unfold relB at h
   simp only [Bool.and_eq_true, beq_iff_eq, decide_eq_true_eq] at h
-  obtain ⟨⟨⟨⟨⟨⟨⟨⟨hlen, hents⟩, hdeps⟩, hld⟩, hnt⟩, hbuf⟩, hmk⟩, hlt⟩, hnd⟩ := h
+  obtain ⟨⟨⟨⟨⟨⟨⟨⟨⟨hlen, hents⟩, hdeps⟩, hld⟩, hnt⟩, hbuf⟩, hmk⟩, hlt⟩, hnd⟩, hold⟩ := h
   refine
   { len := hlen
     ents := ?_
@@ -115,7 +116,12 @@ theorem relB_sound {c : CW} {s : WS} (h : relB c s = true) : Rel c s := by
     buffers := all2B_sound (fun _ _ hh => all2B_sound (fun _ _ h2 => cmdRelB_sound h2) hh) hbuf
     marked := ?_
     markedLt := fun o ho => by simpa using List.all_eq_true.mp hlt o ho
-    markedNodup := hnd }
+    markedNodup := hnd
+    markedOld := by
+      intro o ho h hh
+      have := List.all_eq_true.mp hold o ho
+      rw [hh] at this
+      simpa using this }
   · intro o h ho
     have hmem : (h, o) ∈ c.issued.zipIdx := by
       rw [List.mem_zipIdx_iff_getElem?]; simpa using ho
